@@ -328,7 +328,9 @@ func c14RunE2E(c *c14Case) (rec vtr.Rec) {
 	rec["events"] = l.events()
 	rec["stalled"] = false
 	rec["runerr"] = es
-	rec["ended"] = true // Run has returned: every task of the run has ended
+	// Run has returned by itself: every task of the run has ended. (If it was cut off by the scenario's deadline its
+	// tasks may still be running in the executor, which does not use the caller's context.)
+	rec["ended"] = err == nil || !strings.Contains(es, "deadline exceeded")
 	rec["mayfail"] = c.KillCall != ""
 	return
 }
